@@ -29,6 +29,8 @@ const NADDR: usize = 8;
 const NO_TIMEOUT: u64 = 1_000_000;
 /// One logical time unit of a timed case.
 const HALF_TICK: Duration = Duration::from_millis(20);
+/// One logical time unit of a timed case run on the logical clock (hook `verif_age_pending`).
+const LOGICAL_UNIT: Duration = Duration::from_millis(1000);
 /// A timed call must start within this much after its scheduled instant.
 const TOLERANCE: Duration = Duration::from_millis(7);
 const QID0: usize = 7;
@@ -211,6 +213,10 @@ struct Sys<'w> {
     start: Instant,
     timed: bool,
     late: bool,
+    /// wall clock (real sleeps) instead of the logical clock
+    wall: bool,
+    /// logical time of the last `next_action` call
+    clock: u64,
 }
 
 impl<'w> Sys<'w> {
@@ -220,6 +226,10 @@ impl<'w> Sys<'w> {
 
     /// One engine with one query per header; the headers share k, alpha, timeout, local, dists.
     fn new_multi(w: &'w World, hs: &[Header]) -> Option<Self> {
+        Self::new_mode(w, hs, false)
+    }
+
+    fn new_mode(w: &'w World, hs: &[Header], wall: bool) -> Option<Self> {
         let h0 = hs.first()?;
         let n = h0.dists.len();
         if n == 0 || n > POOL {
@@ -252,6 +262,8 @@ impl<'w> Sys<'w> {
             start: Instant::now(),
             timed: h0.timeout < NO_TIMEOUT,
             late: false,
+            wall,
+            clock: 0,
         };
         for (qi, h) in hs.iter().enumerate() {
             if h.kind > 2 || h.flavour > 2 || (hs.len() > 1 && h.kind == 0 && h.flavour == 0) {
@@ -295,7 +307,8 @@ impl<'w> Sys<'w> {
                 }
             }
             if s.timed {
-                engine.verif_set_peer_timeout(qid, HALF_TICK * h.timeout as u32 + HALF_TICK / 2);
+                let unit = if wall { HALF_TICK } else { LOGICAL_UNIT };
+                engine.verif_set_peer_timeout(qid, unit * h.timeout as u32 + unit / 2);
             }
         }
         s.engine = engine;
@@ -415,7 +428,7 @@ impl<'w> Sys<'w> {
         let kind = self.kinds.get(q).copied().unwrap_or(0);
         let a = match e {
             Event::Next(now) => {
-                if self.timed {
+                if self.timed && self.wall {
                     let due = self.start + HALF_TICK * *now as u32;
                     let t = Instant::now();
                     if due > t {
@@ -425,8 +438,24 @@ impl<'w> Sys<'w> {
                         self.late = true;
                     }
                 }
+                if self.timed && !self.wall {
+                    // logical clock: every pending request becomes (now - clock) units older
+                    if *now > self.clock {
+                        let by = LOGICAL_UNIT * (*now - self.clock) as u32;
+                        for q in self.qids.clone() {
+                            if !self.engine.verif_age_pending(q, by) {
+                                self.late = true;
+                            }
+                        }
+                        self.clock = *now;
+                    }
+                    // the real time spent in the case must stay far below half a unit
+                    if self.start.elapsed() > LOGICAL_UNIT / 4 {
+                        self.late = true;
+                    }
+                }
                 let a = self.engine.next_action();
-                if self.timed && Instant::now() > self.start + HALF_TICK * *now as u32 + TOLERANCE {
+                if self.timed && self.wall && Instant::now() > self.start + HALF_TICK * *now as u32 + TOLERANCE {
                     self.late = true;
                 }
                 self.action(a)
@@ -698,11 +727,13 @@ struct Net {
     noise: u64,
     /// timed stream: candidate advances (in half ticks) before a `next_action` call
     advances: Vec<u64>,
+    /// run against the wall clock instead of the logical clock
+    wall: bool,
 }
 
 /// Drives the real engine with the network; every environment decision is `choose(arity)`.
 fn drive(w: &World, h: &Header, net: &Net, choose: &mut dyn FnMut(u64) -> u64, max_steps: usize) -> Option<(Vec<u64>, Vec<u64>, bool)> {
-    let mut s = Sys::new(w, h)?;
+    let mut s = Sys::new_mode(w, std::slice::from_ref(h), net.wall)?;
     let n = h.dists.len() as u64;
     let mut events: Vec<Vec<u64>> = Vec::new();
     let mut trace = vec![1u64];
@@ -795,6 +826,95 @@ fn drive(w: &World, h: &Header, net: &Net, choose: &mut dyn FnMut(u64) -> u64, m
     Some((h.encode(&events), trace, late))
 }
 
+/// Closed loop in logical time: per tick the engine is polled until it has nothing to do, the
+/// network delivers what is due (answers, failures; silent peers never deliver), the clock
+/// advances and every request older than `tx` ticks is failed by the (emulated) executor. Answers
+/// of peers that were already failed are still delivered (late). Nothing is assumed about the
+/// peers; the lookup must be over after (tx+1)*n ticks.
+fn drive_timed(w: &World, h: &Header, net: &Net, tx: u64, choose: &mut dyn FnMut(u64) -> u64) -> Option<(Vec<u64>, Vec<u64>, bool)> {
+    let mut s = Sys::new(w, h)?;
+    let n = h.dists.len() as u64;
+    let mut events: Vec<Vec<u64>> = Vec::new();
+    let mut trace = vec![1u64];
+    // (peer, sent at, due at, behaviour, already failed by the executor)
+    let mut inflight: Vec<(u64, u64, u64, u64, bool)> = Vec::new();
+    let mut now = 0u64;
+    let mut terminal = false;
+    let bound = (tx + 1) * n + 2;
+    let mut do_event = |s: &mut Sys, e: Event, trace: &mut Vec<u64>| -> Vec<u64> {
+        events.push(e.encode());
+        s.apply(&e, trace)
+    };
+    let resolve = |p: u64, b: u64| -> Event {
+        match b {
+            0 => Event::Resp {
+                p,
+                flag: net.rec[p as usize].0,
+                id: net.rec[p as usize].1,
+                peers: net.knows[p as usize].clone(),
+                provs: net.provs[p as usize].clone(),
+            },
+            1 => Event::Fail(p),
+            _ => Event::BadResp(p),
+        }
+    };
+    'ticks: while now <= bound {
+        // poll
+        for _ in 0..(4 * n + 8) {
+            let a = do_event(&mut s, Event::Next(now), &mut trace);
+            match a[0] {
+                1 => {
+                    let b = match choose(10) {
+                        0..=4 => 0,
+                        5 => 1,
+                        6 => 2,
+                        _ => 3, // silent
+                    };
+                    inflight.push((a[1], now, now + choose(tx + 3), b, false));
+                }
+                4 => {}
+                0 => break,
+                _ => {
+                    terminal = true;
+                    break 'ticks;
+                }
+            }
+        }
+        // the network delivers what is due
+        let mut k = 0;
+        while k < inflight.len() {
+            let (p, _, due, b, _) = inflight[k];
+            if b != 3 && due <= now {
+                inflight.remove(k);
+                do_event(&mut s, resolve(p, b), &mut trace);
+            } else {
+                k += 1;
+            }
+        }
+        now += 1;
+        // the executor fails what has been outstanding for more than tx ticks
+        for x in inflight.iter_mut() {
+            if !x.4 && now - x.1 > tx {
+                x.4 = true;
+                do_event(&mut s, Event::Fail(x.0), &mut trace);
+            }
+        }
+        inflight.retain(|x| !(x.4 && x.3 == 3));
+    }
+    if terminal {
+        // late deliveries and one more poll of the finished query
+        for (p, _, _, b, _) in inflight.iter().filter(|x| x.3 != 3).take(2) {
+            do_event(&mut s, resolve(*p, *b), &mut trace);
+        }
+        do_event(&mut s, Event::Next(now), &mut trace);
+    } else {
+        trace.push(96); // not finished within (tx+1)*n ticks: makes the trace invalid
+    }
+    let late = s.late;
+    drop(do_event);
+    Some((h.encode(&events), trace, late))
+}
+
 fn random_header(rng: &mut Rng, timed: bool) -> Header {
     let kind = if timed { 0 } else { rng.pick(&[0u64, 0, 1, 2]) };
     let n = rng.range(1, 8);
@@ -859,7 +979,7 @@ fn random_net(rng: &mut Rng, h: &Header, exhaustive: bool) -> Net {
             }
         })
         .collect();
-    Net { knows, behaviour, rec, provs, noise: if exhaustive { 0 } else { rng.pick(&[0u64, 10, 30]) }, advances: vec![] }
+    Net { knows, behaviour, rec, provs, noise: if exhaustive { 0 } else { rng.pick(&[0u64, 10, 30]) }, advances: vec![], wall: false }
 }
 
 fn emit_run(out: &mut Outputs, r: Option<(Vec<u64>, Vec<u64>, bool)>) {
@@ -1024,8 +1144,80 @@ pub fn main(args: &Args) {
     }
     eprintln!("c15: exhaustive stream: {nets} networks, {complete} enumerated completely");
 
-    // stream 3: the peer timeout, against the wall clock (FIND_NODE only)
-    let ntimed = args.u64("timed", if thorough { 96 } else { 16 });
+    // stream 3a: the peer timeout on the logical clock (hook verif_age_pending): deterministic
+    let nlogical = args.u64("logical", ncases / 5);
+    let mut logical_ok = 0;
+    for _ in 0..nlogical {
+        let mut r = rng.fork();
+        let mut h = random_header(&mut r, true);
+        h.flavour = r.pick(&[0u64, 0, 1, 2]);
+        h.timeout = r.pick(&[1u64, 2, 5]);
+        h.alpha = r.pick(&[1u64, 2, 2, 3]);
+        if h.seeds.len() < 3 && r.chance(70) {
+            let n = h.dists.len() as u64;
+            h.seeds = (0..n).filter(|p| *p != h.local).collect();
+        }
+        let mut net = random_net(&mut r, &h, false);
+        net.advances = vec![0, 0, 0, 1, 1, 2, 3, 6];
+        for attempt in 0..4u64 {
+            let mut rr = Rng(r.0 ^ attempt);
+            let mut choose = |a: u64| rr.below(a.max(1));
+            match catch_unwind(AssertUnwindSafe(|| drive(&w, &h, &net, &mut choose, 60))) {
+                Ok(Some((c, t, false))) => {
+                    logical_ok += 1;
+                    out.emit(&c, &t);
+                    break;
+                }
+                Ok(Some((_, _, true))) => continue,
+                Ok(None) => break,
+                Err(_) => {
+                    out.emit(&h.encode(&[]), &[PANIC_MARK]);
+                    break;
+                }
+            }
+        }
+    }
+    eprintln!("c15: logical-clock stream: {logical_ok} of {nlogical} cases");
+
+    // stream 3b: closed loop with request timeouts and silent peers (every kind of lookup)
+    let nclosed = args.u64("closed", ncases / 5);
+    let mut closed_ok = 0;
+    for _ in 0..nclosed {
+        let mut r = rng.fork();
+        let timed = r.chance(60);
+        let mut h = random_header(&mut r, timed);
+        if timed {
+            h.flavour = r.pick(&[0u64, 1, 2]);
+            h.timeout = r.pick(&[1u64, 2, 5]);
+        }
+        if h.alpha == 0 {
+            h.alpha = 1;
+        }
+        let mut net = random_net(&mut r, &h, false);
+        net.noise = 0;
+        let tx = r.pick(&[1u64, 3, 7]);
+        for attempt in 0..4u64 {
+            let mut rr = Rng(r.0 ^ attempt);
+            let mut choose = |a: u64| rr.below(a.max(1));
+            match catch_unwind(AssertUnwindSafe(|| drive_timed(&w, &h, &net, tx, &mut choose))) {
+                Ok(Some((c, t, false))) => {
+                    closed_ok += 1;
+                    out.emit(&c, &t);
+                    break;
+                }
+                Ok(Some((_, _, true))) => continue,
+                Ok(None) => break,
+                Err(_) => {
+                    out.emit(&h.encode(&[]), &[PANIC_MARK]);
+                    break;
+                }
+            }
+        }
+    }
+    eprintln!("c15: timed closed-loop stream: {closed_ok} of {nclosed} cases");
+
+    // stream 3c: the peer timeout against the wall clock (FIND_NODE only)
+    let ntimed = args.u64("timed", if thorough { 48 } else { 8 });
     let jobs: Vec<(Header, Net, Rng)> = (0..ntimed)
         .map(|_| {
             let mut r = rng.fork();
@@ -1038,6 +1230,7 @@ pub fn main(args: &Args) {
             let mut net = random_net(&mut r, &h, false);
             net.noise = 0;
             net.advances = vec![0, 0, 0, 2, 6];
+            net.wall = true;
             (h, net, r)
         })
         .collect();
@@ -1072,5 +1265,5 @@ pub fn main(args: &Args) {
         timed_ok += 1;
         out.emit(&r.0, &r.1);
     }
-    eprintln!("c15: timed stream: {timed_ok} of {ntimed} cases met all deadlines");
+    eprintln!("c15: wall-clock stream: {timed_ok} of {ntimed} cases met all deadlines");
 }
